@@ -31,6 +31,7 @@ use super::constant::envvar_key;
 use super::constant::panic_msg;
 use super::error::EncodeError;
 use super::error::SourceError;
+use super::error::SourceErrorReason;
 use super::error::Verified;
 use super::error::VerifyError;
 use super::source::Context;
@@ -268,7 +269,10 @@ impl Fill for ParContext {
         Ok(())
     }
 
-    fn fill_le_bytes(&mut self, bytes: &[u8], _bytes_per_sample: usize) -> Result<(), SourceError> {
+    fn fill_le_bytes(&mut self, bytes: &[u8], bytes_per_sample: usize) -> Result<(), SourceError> {
+        if bytes_per_sample != self.bytes_per_sample {
+            return Err(SourceError::by_reason(SourceErrorReason::InvalidBuffer));
+        }
         self.bytebuf.clear();
         self.bytebuf.extend_from_slice(bytes);
         self.enqueue_buffer();
@@ -303,7 +307,15 @@ fn feed_fixed_block_size<T: Source, C: Fill>(
                 .lock()
                 .expect(panic_msg::MUTEX_LOCK_FAILED);
             let mut framebuf_and_ctx = (&mut numbuf.framebuf, &mut context);
-            let read_samples = src.read_samples(block_size, &mut framebuf_and_ctx)?;
+            let read_samples = match src.read_samples(block_size, &mut framebuf_and_ctx) {
+                Ok(n) => n,
+                Err(e) => {
+                    // workers must be stopped also when feeding is aborted.
+                    drop(numbuf);
+                    parbuf.request_stop(workers);
+                    return Err(e);
+                }
+            };
             if read_samples == 0 {
                 break 'feed;
             }
@@ -332,6 +344,7 @@ fn determine_worker_count(config: &config::Encoder) -> Result<usize, SourceError
     let default_parallelism = std::env::var(envvar_key::DEFAULT_PARALLELISM)
         .ok()
         .and_then(|s| s.parse::<usize>().ok())
+        .filter(|n| *n > 0)
         .unwrap_or(default_parallelism);
     Ok(config
         .workers
@@ -365,8 +378,7 @@ pub fn encode_with_fixed_block_size<T: Source>(
     // only one frame that is shorter than `block_size`.
     stream
         .stream_info_mut()
-        .set_block_sizes(block_size, block_size)
-        .unwrap();
+        .set_block_sizes(block_size, block_size)?;
 
     let worker_count = determine_worker_count(&config)?;
     let parbuf = Arc::new(ParFrameBuf::new(
@@ -375,11 +387,13 @@ pub fn encode_with_fixed_block_size<T: Source>(
         block_size,
     )?);
     let parsink: Arc<ParSink<Frame>> = Arc::new(ParSink::new());
+    let parerrors: Arc<ParSink<VerifyError>> = Arc::new(ParSink::new());
 
     let join_handles: Vec<_> = (0..worker_count)
         .map(|_n| {
             let parbuf = Arc::clone(&parbuf);
             let parsink = Arc::clone(&parsink);
+            let parerrors = Arc::clone(&parerrors);
             let stream_info = stream.stream_info().clone();
             let config = Arc::clone(&config);
             thread::spawn(move || {
@@ -397,27 +411,43 @@ pub fn encode_with_fixed_block_size<T: Source>(
                             ),
                         )
                     };
-                    encode_result.map_or_else(
-                        |e| {
-                            unreachable!("{}, err={:?}", panic_msg::ERROR_NOT_EXPECTED, e);
-                        },
-                        |mut frame| {
-                            parbuf.enqueue_refill(bufid);
+                    parbuf.enqueue_refill(bufid);
+                    match encode_result {
+                        Ok(mut frame) => {
                             frame.precompute_bitstream();
                             parsink.push(frame_number, frame);
-                        },
-                    );
+                        }
+                        Err(EncodeError::Config(e)) => parerrors.push(frame_number, e),
+                        Err(e) => parerrors.push(
+                            frame_number,
+                            VerifyError::new("framebuf", &e.to_string()),
+                        ),
+                    }
                 }
             })
         })
         .collect();
 
     let src_len_hint = src.len_hint();
-    let context = ParContext::new(Context::new(src.bits_per_sample(), src.channels()));
-    let (feed_stats, context) =
-        feed_fixed_block_size(src, block_size, worker_count, &parbuf, context)?;
+    let mut context = ParContext::new(Context::new(src.bits_per_sample(), src.channels()));
+    let feed_result =
+        feed_fixed_block_size(src, block_size, worker_count, &parbuf, &mut context)
+            .map(|(stats, _)| stats);
+    // All helper threads are stopped and joined before reporting a failure.
     let remaining_md5_blocks = context.request_stop();
     let context = context.finalize();
+    for h in join_handles {
+        h.join().expect(panic_msg::THREAD_JOIN_FAILED);
+    }
+    // A frame that could not be encoded precedes the block where reading failed.
+    let mut first_encode_error = None;
+    destruct_arc(parerrors).finalize(|e: VerifyError| {
+        first_encode_error.get_or_insert(e);
+    });
+    if let Some(e) = first_encode_error {
+        return Err(EncodeError::Config(e));
+    }
+    let feed_stats = feed_result?;
 
     info!(
         target: "flacenc::par_run_stat::jsonl",
@@ -432,16 +462,11 @@ pub fn encode_with_fixed_block_size<T: Source>(
         .stream_info_mut()
         .set_md5_digest(&context.md5_digest());
 
-    for h in join_handles {
-        h.join().expect(panic_msg::THREAD_JOIN_FAILED);
-    }
-
     destruct_arc(parsink).finalize(|f: Frame| stream.add_frame(f));
     // See the comment in `coding::encode_with_fixed_block_size`.
     stream
         .stream_info_mut()
-        .set_block_sizes(block_size, block_size)
-        .unwrap();
+        .set_block_sizes(block_size, block_size)?;
 
     stream
         .stream_info_mut()
